@@ -403,6 +403,11 @@ func symbolicStringFunc(fr *frame, name string, args []value) (value, bool) {
 			return strValue(rest), true
 		}
 		return strValue(a), true
+	case "strconv.FormatInt", "strconv.Itoa", "strconv.FormatUint", "strconv.FormatBool":
+		// decimal rendering of a symbolic number: an opaque string. Nothing
+		// is known about it, so anything that branches on it is explored both
+		// ways; native path validation catches a use that matters.
+		return symStr{mkVar(fr.i.ps.freshName("itoa"), sortStr)}, true
 	case "strings.ToLower", "strings.ToUpper", "strings.TrimSpace":
 		return nil, false
 	}
